@@ -62,6 +62,7 @@ func genCompile(c *Ctx) {
 	importTables(c)
 	// the names moq invents for unnamed parameters are identifiers (what they are is C09's business)
 	c.namingIdentOnly = true
+	c.collisionRows = true
 	namesTables(c, freeNameList(c, "G-RESERVED"), false, true)
 	gen.CheckVarNameOwners(c.Run, c.Prog)
 	// the self-check line and the mock's type parameter list are written from what LookupInterface returns
